@@ -247,6 +247,21 @@ Theorem parse_one_framing decompress rec b1 b2 h1 h2 r :
   parse_one decompress rec b1 = parse_one decompress rec b2.
 Proof. intros P1 P2 T L. unfold parse_one. rewrite P1, P2, T, L. reflexivity. Qed.
 
+(* a literal data packet (tag 11) and a modification detection code packet (tag 19) are read out of the octets their header declares:
+   whatever follows the declared body is what is left, untouched, for the next packet -- or the packet is refused.  (False before
+   9b50cd0 / 08ffd01: tag 19 took 20 octets whatever was declared, tag 11 took name, date and data from what follows.) *)
+Theorem parse_one_literal_mdc_confined decompress rec b h body r p r' : wf_bytes body -> wf_bytes r ->
+  header_parse b = Some (h, body ++ r) -> h_len h = Z.of_nat (length body) -> h_tag h = 11 \/ h_tag h = 19 ->
+  parse_one decompress rec b = Ok (p, r') -> r' = r.
+Proof.
+  intros Hb Hr HP Ln [T|T] H; unfold parse_one in H; rewrite HP, T, Ln in H; cbn [Z.eqb Pos.eqb] in H.
+  - destruct (lit_parse (Z.of_nat (length body)) (body ++ r)) as [[l r0]|] eqn:L; [|discriminate H].
+    inversion H; subst; clear H. exact (proj2 (lit_parse_only_rfc body r l r' Hb Hr L)).
+  - destruct (Z.of_nat (length body) =? 20) eqn:E; [|discriminate H].
+    assert (Hl : length body = 20%nat) by lia.
+    rewrite skipn_app_exact in H by exact Hl. congruence.
+Qed.
+
 (* partial body lengths written by frame_partial reassemble to the body *)
 Lemma enc_chunks_eq cs last : Message.encode_chunks cs last = Wire_lemmas.encode_chunks cs last.
 Proof. induction cs as [|[k d] cs IH]; cbn; [reflexivity|]. rewrite IH. reflexivity. Qed.
